@@ -21,18 +21,36 @@ RULE = ("T: cspuz/backend/z3.py::_convert_expr's operator chain is re-read with 
         "program compared.  search: verdict vs brute-force enumeration of the declared domains under the ordinary meaning of "
         "the program as written, and the sol values left by Python must be in bounds, well-typed and satisfy every constraint "
         "(checked by the Python reference and by the extracted sol_is_model).  A case is non-trivial when it is a distinct "
-        "(kind, program) pair.")
+        "(kind, program) pair.  "
+        "T2: the body of Z3Backend.solve is re-read with ast on every run: everything but the verdict test must be the text "
+        "Backend/Z3.v / Z3Verdict.v were written from (statements that only set options on the solver object are no-ops of "
+        "the model), and the verdict test is translated into Gen/Z3SolveTable.v (for sat / unsat / unknown: does solve() "
+        "return False before asking for a model?); find_answer_never_wrong / find_answer_decides are re-proved against it "
+        "for a three-valued solver.  Second-generation inputs (harness/c01hard.py): programs delivered through every "
+        "container form of ensure / count_true / fold_and / fold_or / alldifferent (list, varargs, tuple, generator, iter, "
+        "map, zip, generator nested in a list, generator of lists, reversed, arrays, two arguments), every int created at "
+        "run time incl. values and domain bounds outside CPython's small-int cache with frequent equal values, variables "
+        "declared through bool_array / int_array (1-D, 2-D), the backend named as 'z3' / Z3Backend / config.default_backend / "
+        "positionally ('find-forms', 'build-forms'); the same under non-default cspuz.config settings (solver_timeout, "
+        "use_graph_primitive, backend_path, default_backend) and under z3's own global parameters rlimit / timeout, where z3 "
+        "answers unknown ('find-env': the outcome must be the model's with a solver that answers or with one that gives up; "
+        "an exception is accepted under a limit, a wrong verdict never); larger instances with a planted answer (Latin "
+        "squares, magic square, pigeons, ordered chains, random planted programs) under the same limits; interleaved "
+        "sessions on several Solvers with find_answer issued twice, the caller mutating a list it passed to ensure, and "
+        "checks that ensure leaves its arguments and find_answer leaves the program unchanged ('session-forms').")
 TRUSTED = [
     "z3 (Solver.check / model) is a Section variable `oracle` with hypotheses oracle_sound / oracle_complete (premises of the theorems, not axioms)",
     "z3py's overload semantics (literal coercion, reflected comparisons, And/Or/Distinct argument handling) as transcribed in Backend/Z3.v::py_bin/lift/z_*; compared structurally with the real z3py on every run (kind 'conv')",
     "zeval: z3's meaning of the term fragment (integer arithmetic, =, distinct, ite, and/or/xor/not)",
     "eval (Core/Expr.v): the 'ordinary meaning' of the operators; validated on every run against an independent Python evaluator of the surface program (kind 'eval')",
-    "harness/c01translate.py (ast -> Gen/Z3Table.v, fail-closed)",
+    "harness/c01translate.py (ast -> Gen/Z3Table.v and Gen/Z3SolveTable.v, fail-closed)",
+    "z3's three answers as `verdict` (Backend/Z3Verdict.v): after a non-sat answer Solver.model() raises; hypotheses verdict_sound_on (a sat answer carries a model, an unsat answer on a bounded query is right; nothing about unknown) are premises of the theorems",
 ]
 ASSUMPTIONS = [
     "constraints are well-typed trees (Core.Expr.wt) whose variables are the Solver's own (refs_ok); ill-sorted mixes of bool and int under a z3 operator are outside the model",
     "z3 assigns every integer constant that occurs in the asserted terms (Z3Backend.solve calls as_long() on model[v])",
     "oracle_complete is only assumed for queries whose integer constants all carry asserted bounds (the queries Z3Backend.solve makes)",
+    "when z3 answers unknown (a time / resource limit set by the user on z3 or, if the backend ever passes one on, by cspuz.config) find_answer may raise; it must never turn that answer into a verdict (find_answer_never_wrong); find_answer_decides assumes z3 answers every bounded query",
 ]
 
 ERR = {1: "IndexError", 2: "KeyError", 3: "AssertionError", 4: "TypeError", 5: "ValueError",
@@ -383,12 +401,15 @@ def correspond_hard(ctx, m):
     data.update({"cases": [], "hard": [], "sessions2": []})
 
     # verdict test of Z3Backend.solve: the generated table the model runs on is the translator's reading
-    ctx.corr("solve-table", "Z3Backend.solve verdict test", m.call("FALSEON"),
-             "sat=%d unsat=%d unknown=%d" % tuple(int(c01translate.read_solve(
-                 os.path.join(vlib.REPO, "cspuz", "backend", "z3.py"))[k]) for k in c01translate.KINDS))
+    try:
+        tbl = c01translate.read_solve(os.path.join(vlib.REPO, "cspuz", "backend", "z3.py"))
+        tbl = "sat=%d unsat=%d unknown=%d" % tuple(int(tbl[k]) for k in c01translate.KINDS)
+    except c01translate.TranslateError:
+        tbl = "untranslatable"        # already reported by the translator stage; the model runs on the last good table
+    ctx.corr("solve-table", "Z3Backend.solve verdict test", m.call("FALSEON"), tbl)
 
     # (a'') helper constructors in every container form vs Core/Build.v on the materialised list
-    reqs, impl, labels = [], [], []
+    reqs, impl, labels, side = [], [], [], []
     for it in range(330 if not ctx.thorough else 3300):
         decls = H.gen_decls2(rng)
         s = Solver()
@@ -402,11 +423,19 @@ def correspond_hard(ctx, m):
         ctx.count("build-form:" + form)
         reqs.append("BUILD %s %s" % (f, exprio.show_list(xs)))
         snap = list(xs)
-        r = vlib.guarded(lambda: exprio.show(getattr(C, f)(*H.wrap(form, xs))))
+        args = H.wrap(form, xs)
+        r = vlib.guarded(lambda: exprio.show(getattr(C, f)(*args)))
         impl.append(norm_impl(r))
         labels.append(("build-forms", "%s<%s> %s" % (f, form, exprio.show_list(snap))))
+        if form in ("list", "tuple", "nested-gen"):
+            a0 = args[0]
+            same = len(a0) == (len(snap) if form != "nested-gen" else 2) and (form == "nested-gen" or all(x is y for x, y in zip(a0, snap)))
+            side.append(("helper-leaves-argument", "%s<%s> %s" % (f, form, exprio.show_list(snap)), "unchanged",
+                         "unchanged" if same else "changed"))
     for (kind, inp), o, io in zip(labels, m.batch(reqs), impl):
         ctx.corr(kind, inp, parse_model_reply(o), io)
+    for kind, inp, exp, got in side:
+        ctx.corr(kind, inp, exp, got)
 
     # (d) find_answer on enumerable programs delivered in every form (default environment)
     n_case = 330 if not ctx.thorough else 4000
@@ -644,10 +673,35 @@ def search_hard(ctx, data):
             n_rep += 1
             step, cat, text = probs[0]
             again = H.session_problems(H.replay_scripts(run["scripts"], run["order"])[run["index"]])
+            scs, od, ix = run["scripts"], run["order"], run["index"]
+            outs, final = run["outs"], run["final"]
+            if again:
+                scs, od, ix = H.minimise_session(scs, od, ix)
+                small = H.replay_scripts(scs, od)[ix]
+                p2 = H.session_problems(small)
+                if p2:
+                    (step, cat, text), outs, final = p2[0], small["outs"], small["final"]
             ctx.violation("fs-" + md5(run["ops_tok"]), "session step %d: %s" % (step, text),
-                          {"script": H.show_script(run["script"]), "scripts": repr(run["scripts"]), "order": run["order"],
-                           "index": run["index"], "step": step, "category": cat, "outs": run["outs"], "final": run["final"],
+                          {"script": H.show_script(scs[ix]), "scripts": repr(scs), "order": od,
+                           "index": ix, "step": step, "category": cat, "outs": outs, "final": final,
                            "reproduced_on_rerun": bool(again)})
+    if getattr(ctx, "deep", False) and not ctx.violations:
+        # a proof or tie broke and nothing failed so far: many more second-generation inputs
+        n = 0
+        for it in range(2500):
+            case = H.gen_case(ctx, rng, depth=(1, 5), ncons=(1, 4))
+            if it % 4 == 0:
+                case["env"] = H.gen_env(rng)
+            elif it % 4 == 1:
+                case["env"] = {"z3": rng.choice([{"rlimit": 1}, {"rlimit": 60}, {"rlimit": 1000}])}
+            r, sols, trees, s = H.run_case(case)
+            ctx.prop_case("find_answer-vs-enumeration",
+                          ("deep-case", H.case_label(case), G.decls_tok(case["decls"]), tuple(G.show_surface(x) for x in case["cons"])))
+            if H.judge(case, r, sols, H.expected_sat(case)):
+                H.report_case(ctx, case, "verdict / sol", observed=(r, sols))
+                n += 1
+                if n >= 3:
+                    break
 
 
 def replay(ctx, rp):
